@@ -427,6 +427,74 @@ def dialect_specific_cases():
     return out
 
 
+STYLES = [
+    ("ctas", "CREATE TEMPORARY TABLE"), ("ctas", "CREATE TEMP TABLE"), ("ctas", "CREATE TRANSIENT TABLE"), ("ctas", "CREATE GLOBAL TEMPORARY TABLE"),
+    ("ctas", "CREATE UNLOGGED TABLE"), ("ctas", "CREATE VOLATILE TABLE"), ("ctas", "CREATE OR REPLACE TEMPORARY TABLE"), ("ctas", "CREATE EXTERNAL TABLE"),
+    ("ctas", "CREATE MULTISET TABLE"), ("ctas", "CREATE TABLE IF NOT EXISTS"),
+    ("view", "CREATE MATERIALIZED VIEW"), ("view", "CREATE TEMPORARY VIEW"), ("view", "CREATE OR REPLACE TEMPORARY VIEW"), ("view", "CREATE TEMP VIEW"),
+    ("view", "CREATE VIEW IF NOT EXISTS"), ("view", "CREATE OR REPLACE MATERIALIZED VIEW"), ("view", "CREATE SECURE VIEW"), ("view", "CREATE OR ALTER VIEW"),
+    ("view", "CREATE GLOBAL TEMPORARY VIEW"), ("view", "ALTER VIEW"),
+    ("insert", "REPLACE INTO"), ("insert", "INSERT IGNORE INTO"), ("insert", "INSERT"), ("insert", "INSERT OR REPLACE INTO"), ("insert", "INSERT OVERWRITE INTO"),
+    ("insert", "INSERT INTO TABLE"), ("insert", "INSERT OVERWRITE TABLE"),
+]
+STYLE_FROM = ("single", "chained_joins", "comma2", "derived", "cte_ref", "right_nested_join")
+STYLE_POS = ("none", "where_in", "union_branches")
+
+
+def style_statements():
+    """statement spellings that only some dialects have (TEMPORARY / TRANSIENT / MATERIALIZED / REPLACE INTO / INSERT without INTO ...) over six FROM
+    shapes x three subquery positions; a spelling the library does not support (UnsupportedStatementException) is outside the property's
+    'supported data-moving statement' and is discarded and counted, a returned result is judged like any other"""
+    shapes = {n: b for n, b in from_shapes()}
+    poss = {n: b for n, b in subquery_positions()}
+    for kind, style in STYLES:
+        for fname in STYLE_FROM:
+            if fname not in shapes:
+                continue
+            for pname in STYLE_POS:
+                if pname not in poss:
+                    continue
+                groups, qual, ctes = shapes[fname](0)
+                extra = poss[pname](qual, 0)
+                q = ir.Select((ir.Item(ir.Col(qual, "c1")),) + tuple(extra.get("extra_items", ())), groups, extra.get("where"))
+                if "setop" in extra:
+                    q = ir.SetOp(("UNION ALL",) * len(extra["setop"]), (q,) + tuple(extra["setop"]))
+                if ctes:
+                    q = _with(ctes, q)
+                tgt = ir.T("s9", "tgt")
+                if kind == "ctas":
+                    stmt = ir.Ctas(tgt, q, style, False)
+                elif kind == "view":
+                    stmt = ir.CreateView(tgt, None, q, style, False)
+                else:
+                    stmt = ir.Insert(tgt, None, q, style, False)
+                yield stmt, ["style:" + style, "from:" + fname, pname]
+
+
+def _style_worker(payload):
+    shard, nshards, ctx = payload
+    res = runner.Res()
+    dl = all_dialects()
+    for idx, (stmt, feats) in enumerate(style_statements()):
+        if idx % nshards != shard:
+            continue
+        if ctx.quick and feats[1] != "from:single" and (idx // nshards + ctx.seed) % 3:
+            continue  # quick: every style over the single-table shape, a seeded third of the rest
+        if ctx.out_of_time():
+            res.budget_exhausted = True
+            break
+        for dialect in dl:
+            v = judge(stmt, feats, dialect, res, ctx, "style")
+            if v is None:
+                continue
+            if _raises_unsupported(v["detail"]):
+                res.discard("style_not_supported_by_library:" + dialect + ":" + feats[0][6:])
+                continue
+            if len(res.violations) < 4:
+                res.violation(v["kind"], v["case"], v["detail"])
+    return res
+
+
 def _specific_worker(payload):
     shard, nshards, ctx = payload
     from vlib import rewrite
@@ -496,6 +564,7 @@ def run(ctx):
     nshards = runner.NCPU * 2
     res = runner.merge_all(runner.pmap(_skeleton_worker, [(i, nshards, (0, 1), ctx) for i in range(nshards)]))
     res.merge(runner.merge_all(runner.pmap(_specific_worker, [(i, nshards, ctx) for i in range(nshards)])))
+    res.merge(runner.merge_all(runner.pmap(_style_worker, [(i, nshards, ctx) for i in range(nshards)])))
     res.extra["skeletons"] = sum(1 for _ in skeletons((0, 1)))
     n = ctx.n(1600, 24000)
     payloads = [(i, n // runner.NCPU, 2, ctx) for i in range(runner.NCPU)]
